@@ -82,10 +82,18 @@ def main(argv):
                 ctx.model_ok = okd
         # 3. audit --------------------------------------------------------------------------
         aud = {"theorems": [], "examples": 0, "axioms": {}, "problems": []}
+        leanchecker = None
         if ok:
             aud = common.audit(pid, mod.PROPS, getattr(mod, "DRIVER_ROOTS", ()))
             for p in aud["problems"]:
                 broken.append("audit: " + p)
+            if tier == "thorough":
+                # independent re-check of the compiled proofs by the toolchain's .olean checker
+                mods = [p[:-5].replace("/", ".") for p in mod.PROPS]
+                rc, o, e = common.sh(["lake", "env", "leanchecker"] + mods, cwd=common.LEAN, timeout=3000)
+                leanchecker = "ok" if rc == 0 else "FAILED: " + (o + e)[-400:]
+                if rc != 0:
+                    broken.append("audit: leanchecker rejected the compiled proofs: " + (o + e)[-300:])
 
     # 4. correspond + oracle ----------------------------------------------------------------
     limit = int(os.environ.get("VERIF_RUN_TIMEOUT", "3600" if tier == "thorough" else "900"))
@@ -165,6 +173,7 @@ def main(argv):
         "histogram": dict(out.hist),
         "exhaustive": bool(out.exhaustive),
         "generated_diff": generated_diff,
+        "leanchecker": leanchecker,
         "broken": broken,
         "notes": ctx.notes,
     }
